@@ -6,6 +6,7 @@
 //   kind 4  AnamEmpirical    normal-score fit, forward / backward
 //   kind 5  Rotation         setAngles / setMatrixDirect, rotateDirect then rotateInverse
 //   kind 6  hermiteCondExpElement(y, s, psi)   (run under AddressSanitizer by the check)
+//   kind 7  AnamEmpirical / AnamHermite fit of degenerate data (constant, single, all undefined), under AddressSanitizer
 #include "sx.hpp"
 #include <sstream>
 #define private public
@@ -138,6 +139,16 @@ static std::string runAnamHermite(const Sx& c) {
   int r4 = anam.gaussianToRawByLocator(db);
   int nb4 = db->getColumnNumber();
   o << " " << r3 << " " << (nb3 - nb) << " " << r4 << " " << (nb4 - nb3) << " " << ((r4 == 0 && nb4 > nb3) ? colStr(db, nb4 - 1) : std::string("()"));
+  // the four arguments fitFromArray hands to _defineBounds (classes of the sorted active data)
+  if (mode == 0) {
+    VectorDouble tabv = db->getColumn("z", true);
+    int nech = (int) tabv.size();
+    VectorDouble zs(nech + 2), ys(nech + 2);
+    AnamHermite tmp(nbpoly);
+    int ncl = tmp._data_sort(nech, tabv, VectorDouble(), zs, ys);
+    if (ncl >= 2) o << " (" << sx_d(ys[0]) << " " << sx_d(zs[0]) << " " << sx_d(ys[ncl - 2] + EPSILON5) << " " << sx_d(zs[ncl - 1]) << ")";
+    else o << " ()";
+  } else o << " ()";
   o << ")";
   delete db;
   return o.str();
@@ -215,6 +226,14 @@ static std::string run(const Sx& c) {
   if (kind == 3) return runNormalScore(c);
   if (kind == 4) return runAnamEmpirical(c);
   if (kind == 5) return runRotation(c);
+  if (kind == 7) {   // (7 which nbpoly data): fit of degenerate data; which 0 = AnamEmpirical, 1 = AnamHermite. Returns (rc threw)
+    int which = (int) c[1].i(), nb = (int) c[2].i(); VectorDouble data = c[3].vd(TEST); int rc = -9, threw = 0;
+    try {
+      if (which == 0) { AnamEmpirical a; rc = a.fitFromArray(data); }
+      else { AnamHermite a(nb); rc = a.fitFromArray(data); }
+    } catch (const std::exception& e) { threw = 1; }
+    std::ostringstream o; o << "(" << rc << " " << threw << ")"; return o.str();
+  }
   if (kind == 6) { std::ostringstream o; o << "(" << sx_d(hermiteCondExpElement(c[1].d(), c[2].d(), c[3].vd())) << ")"; return o.str(); }   // (6 y s psi)
   return "(-997 1)";
 }
